@@ -97,8 +97,21 @@ def main():
             bump("record_failures")
             continue
         if base.get("violation") or base.get("create_failed"):
-            # fault-free run not clean: belongs to another property's check
+            # The fault-free recording pass is not clean. The history lies inside this property's quantifier ("x
+            # histories"), and no injected run of it can be judged: report it (a listed known finding stays one).
             bump("histories_not_clean_without_fault")
+            v = base.get("violation")
+            if v:
+                tags = list(v.get("tags") or [])
+                kt = next((t for t in tags if (t, v["sig"]) in known_set), None)
+                if kt is not None:
+                    e = known_hits.setdefault(kt + "|" + v["sig"], {"key": kt + "|" + v["sig"], "count": 0, "example": v["msg"]})
+                    e["count"] += 1
+                elif v["sig"] not in seen and len(rep["violations"]) < 6:
+                    seen.add(v["sig"])
+                    path = os.path.join(replay_dir, f"fault-s{seed}-c{case_no}-nofault.json")
+                    json.dump({"engine": "fault", "seed": seed, "case": case_no, "class": None, "violation": v, "history": base.get("sample")}, open(path, "w"), indent=1)
+                    rep["violations"].append({"tags": sorted(set(tags + ["C16"])), "sig": "fault-free:" + v["sig"], "msg": "[recording pass, no fault injected] " + v["msg"], "replay": path})
             continue
         rep["cases"] += 1
         rep["distinct"].append(base["hash"])
@@ -156,7 +169,7 @@ def main():
                         path = os.path.join(replay_dir, f"fault-s{seed}-c{case_no}-{cls}-{ordn}-{errno}.json")
                         json.dump({"engine": "fault", "seed": seed, "case": case_no, "class": cls, "ordinal": ordn, "errno": errno,
                                    "violation": v, "history": base.get("sample")}, open(path, "w"), indent=1)
-                        rep["violations"].append({"tags": ["C16"], "sig": v["sig"], "msg": msg, "replay": path})
+                        rep["violations"].append({"tags": v.get("tags") or ["C16"], "sig": v["sig"], "msg": msg, "replay": path})
             if not complete:
                 break
         if complete:
